@@ -339,7 +339,7 @@ package index
 
 // Index.Put (C08): the trimming rule preserves the representation invariant of the bucket's
 // list, for every list shape and key, in all three branches.
-//@ func (idx *Index) Put(key []byte, location types.Block) (err error)  property C08
+//@ func (idx *Index) Put(key []byte, location types.Block) (err error)  property C01 C08
 //@   define BK() = le32(bytes(key), 0) % pow2(idx.sizeBits)
 //@   define IK() = STRIP(idx, bytes(key))
 //@   define L() = len(key) - PFX(idx)
@@ -422,7 +422,7 @@ package index
 // Index.Update (C08): the entry the key resolves to gets the new location, same stored key,
 // every other entry identical; the invariant is preserved when that entry is the key's own
 // (which the store guarantees by comparing full keys).
-//@ func (idx *Index) Update(key []byte, location types.Block) (err error)  property C08
+//@ func (idx *Index) Update(key []byte, location types.Block) (err error)  property C01 C08
 //@   define BK() = le32(bytes(key), 0) % pow2(idx.sizeBits)
 //@   define IK() = STRIP(idx, bytes(key))
 //@   define L() = len(key) - PFX(idx)
@@ -447,7 +447,7 @@ package index
 //@   ensures @err-unchanged err != nil ==> CUR(idx, BK()) == B0()
 
 // Index.Remove (C08): the entry the key resolves to is removed, every other entry identical.
-//@ func (idx *Index) Remove(key []byte) (removed bool, err error)  property C08
+//@ func (idx *Index) Remove(key []byte) (removed bool, err error)  property C01 C08
 //@   define BK() = le32(bytes(key), 0) % pow2(idx.sizeBits)
 //@   define IK() = STRIP(idx, bytes(key))
 //@   define L() = len(key) - PFX(idx)
